@@ -18,22 +18,22 @@ STAGES = {
     "C11": [S("native", "native")],
     "C19": [S("native", "native")],
     "C04": [S("native", "native")],
-    "C05": [S("native", "native")],
+    "C05": [S("native", "native"), S("miri", "miri", tiers=("thorough",), timeout=3000)],
     "C07": [S("native", "native")],
     "C20": [S("native", "native")],
     "C06": [S("native", "native")],
     "C12": [S("native", "native")],
     "C01": [S("native", "native")],
-    "C13": [S("native", "native")],
-    "C14": [S("native", "native")],
+    "C13": [S("native", "native"), S("miri", "miri", tiers=("thorough",), args=["--n", "60"], timeout=3000)],
+    "C14": [S("native", "native"), S("miri", "miri", tiers=("thorough",), args=["--n", "40"], timeout=3000)],
     "C15": [S("native", "native")],
     "C09": [
         S("native", "native"),
-        S("miri", "miri", tiers=("thorough",), args=["--n", "300"], timeout=3000),
+        S("miri", "miri", tiers=("thorough",), args=["--n", "40"], timeout=3000),
     ],
     "C16": [
         S("native", "native"),
-        S("miri", "miri", tiers=("thorough",), args=["--n", "300"], timeout=3000),
+        S("miri", "miri", tiers=("thorough",), args=["--n", "60"], timeout=3000),
     ],
 }
 
